@@ -1,7 +1,7 @@
 (* C02  Only authentic packets are accepted; altered packets change nothing.
    Statements only; proofs are in proofs/PacketNumberProofs.v and proofs/ProtectProofs.v. *)
 From AQ Require Import lib.Base model.PacketNumber model.Protect gen.PnGen proofs.PacketNumberProofs proofs.ProtectProofs
-  model.KeyPhase proofs.KeyPhaseProofs.
+  model.KeyPhase proofs.KeyPhaseProofs gen.C02Keys model.KeyDerive proofs.KeyDeriveProofs.
 
 (* the current source of decode_packet_number (translated by tools/gen/c02_pure.py) is the model *)
 Theorem gen_source_is_model : forall t b e, gen_decode_packet_number t b e = decode_packet_number t b e.
@@ -148,3 +148,81 @@ Theorem fresh_packet_accepted : forall s x, reachable s ->
     gen (ep s2 (negb x)) = gen (ep s2 x).
 Proof. exact fresh_packet_accepted_lemma. Qed.
 Print Assumptions fresh_packet_accepted.
+
+(* ---- key derivation (model/KeyDerive.v; constants generated from the current source by tools/gen/c02_keys.py) ---- *)
+
+(* every label, salt, length, code point and Retry key the current source contains is the one RFC 8446 / 9001 / 9369 give
+   (the RFC values are written out in proofs/KeyDeriveProofs.v constants_rfc; the proof is reflexivity) *)
+Theorem constants_are_rfc : constants_rfc.
+Proof. exact constants_are_rfc_lemma. Qed.
+Print Assumptions constants_are_rfc.
+
+(* (label, context, length) |-> HkdfLabel bytes is injective wherever hkdf_label does not raise ... *)
+Theorem hkdf_label_injective : forall l1 c1 n1 l2 c2 n2 info,
+  hkdf_label l1 c1 n1 = Some info -> hkdf_label l2 c2 n2 = Some info -> l1 = l2 /\ c1 = c2 /\ n1 = n2.
+Proof. exact hkdf_label_injective_lemma. Qed.
+Print Assumptions hkdf_label_injective.
+
+(* ... and it does not raise for labels shorter than 250 bytes, contexts up to 255 bytes and uint16 lengths *)
+Theorem hkdf_label_domain : forall l c n, Zlen l < 250 -> Zlen c <= 255 -> 0 <= n <= 65535 -> exists info, hkdf_label l c n = Some info.
+Proof. exact hkdf_label_defined. Qed.
+Print Assumptions hkdf_label_domain.
+
+(* every derivation of crypto.py asks for at most one digest: OKM = first n bytes of HMAC(secret, HkdfLabel | 0x01) *)
+Theorem expand_label_one_block : forall (hmac : Z -> list Z -> list Z -> list Z) a secret label ctx n o, 0 < n <= snd a ->
+  hkdf_expand_label hmac a secret label ctx n = Ok o ->
+  exists info, hkdf_label label ctx n = Some info /\ o = ztake n (hmac (fst a) secret (info ++ [1])).
+Proof. exact expand_label_single. Qed.
+Print Assumptions expand_label_one_block.
+
+(* derive_key_iv_hp is the three derivations PKey, PIv, PHp; the next secret is PKu *)
+Theorem derive_key_iv_hp_is_three_derivations : forall (hmac : Z -> list Z -> list Z -> list Z) cs secret version,
+  derive_key_iv_hp hmac cs secret version =
+    (k <- derive hmac cs version secret PKey ;; i <- derive hmac cs version secret PIv ;; h <- derive hmac cs version secret PHp ;; Ok (k, i, h))
+  /\ next_secret hmac cs secret version = derive hmac cs version secret PKu.
+Proof. exact (fun hmac cs secret version => conj (derive_key_iv_hp_components hmac cs secret version) (next_secret_is_derive hmac cs secret version)). Qed.
+Print Assumptions derive_key_iv_hp_is_three_derivations.
+
+(* H-HMAC (hmac_ideal, hmac_len: explicit premises): key, iv, hp and next secret, of version 1 and of version 2, are
+   pairwise separated -- two derivations yield the same bytes only if they are the same derivation from the same secret *)
+Theorem derived_secrets_separated : forall (hmac : Z -> list Z -> list Z -> list Z), hmac_ideal hmac -> hmac_len hmac ->
+  forall cs1 v1 s1 p1 cs2 v2 s2 p2 o, Zlen s1 = Zlen s2 ->
+  derive hmac cs1 v1 s1 p1 = Ok o -> derive hmac cs2 v2 s2 p2 = Ok o ->
+  s1 = s2 /\ p1 = p2 /\ is_v2 v1 = is_v2 v2 /\ cipher_suite_hash cs1 = cipher_suite_hash cs2.
+Proof. exact derived_secrets_separated_lemma. Qed.
+Print Assumptions derived_secrets_separated.
+
+(* the Initial keys depend on the Destination Connection ID, the version family and the role: whatever two setup_initial
+   calls share (send secret, AEAD key, iv or hp key) they agree on all three; a send key equals a receive key only for the
+   same DCID and version family and OPPOSITE roles *)
+Theorem initial_keys_depend_on_dcid_and_version : forall (hmac : Z -> list Z -> list Z -> list Z), hmac_ideal hmac -> hmac_len hmac ->
+  forall cid1 c1 v1 r1 s1 cid2 c2 v2 r2 s2 p,
+  setup_initial hmac cid1 c1 v1 = Ok (r1, s1) -> setup_initial hmac cid2 c2 v2 = Ok (r2, s2) ->
+  (mat_of s1 p = mat_of s2 p -> cid1 = cid2 /\ is_v2 v1 = is_v2 v2 /\ c1 = c2) /\
+  (mat_of s1 p = mat_of r2 p -> cid1 = cid2 /\ is_v2 v1 = is_v2 v2 /\ c1 = negb c2).
+Proof. exact initial_keys_depend_lemma. Qed.
+Print Assumptions initial_keys_depend_on_dcid_and_version.
+
+(* n key updates: the secret is secret_at n -- generation n+1 is computed from generation n, the suite and the version
+   only --, key and iv are derived from it, the header protection key is still the first one *)
+Theorem key_update_chain : forall (hmac : Z -> list Z -> list Z -> list Z) n m m', updates hmac n m = Ok m' ->
+  secret_at hmac (m_cs m) (m_version m) (m_secret m) n = Ok (m_secret m') /\
+  m_cs m' = m_cs m /\ m_version m' = m_version m /\ m_hp m' = m_hp m /\
+  (n <> O -> derive hmac (m_cs m) (m_version m) (m_secret m') PKey = Ok (m_key m') /\
+             derive hmac (m_cs m) (m_version m) (m_secret m') PIv = Ok (m_iv m')).
+Proof. exact updates_chain. Qed.
+Print Assumptions key_update_chain.
+
+(* H-HMAC + "the chain does not return to its first secret": no two generations share a secret *)
+Theorem key_generations_have_distinct_secrets : forall (hmac : Z -> list Z -> list Z -> list Z), hmac_ideal hmac -> hmac_len hmac ->
+  forall cs a v s0, cipher_suite_hash cs = Some a -> Zlen s0 = snd a ->
+  (forall n, n <> O -> secret_at hmac cs v s0 n <> Ok s0) ->
+  forall i j s, secret_at hmac cs v s0 i = Ok s -> secret_at hmac cs v s0 j = Ok s -> i = j.
+Proof. exact key_chain_no_repeat. Qed.
+Print Assumptions key_generations_have_distinct_secrets.
+
+(* the Retry integrity key and nonce are selected by version and differ between the two families *)
+Theorem retry_keys_selected_by_version : forall v1 v2, (v1 =? QUIC_VERSION_2) <> (v2 =? QUIC_VERSION_2) ->
+  fst (retry_key_nonce v1) <> fst (retry_key_nonce v2) /\ snd (retry_key_nonce v1) <> snd (retry_key_nonce v2).
+Proof. exact retry_keys_differ. Qed.
+Print Assumptions retry_keys_selected_by_version.
